@@ -93,7 +93,7 @@ Definition pms_domo_lang (b : str) : option str :=
 Definition pms_html_ok (o : htmlopts) (b : str) : option bool :=
   let exts := (match h_a o with [] => default_html_exts | l => l end) ++ h_A o in
   match dot_parts b with
-  | [stem] => Some (str_mem b (h_f o))
+  | [stem] => Some (str_mem [] exts || str_mem b (h_f o))       (* no extension *)
   | [stem; ext] => if simple_stem stem then Some (str_mem ext exts || str_mem b (h_f o)) else None
   | _ => None
   end.
@@ -111,26 +111,45 @@ Definition file_node (mode : N) (f : fkind) (dangling_ok : bool) : option pnode 
   | FLink t false => if dangling_ok then Some (PLink t) else None
   end.
 
-(* every file below a directory argument, at <base>/<rel>/<name> *)
+(* every entry below a directory argument d, at <dest>/<basename d>/<rel>/<name>: the directory
+   itself, sub-directories that are symlinks (kept as links) and the non-directories; None when
+   a name is not an ordinary file name or a symlink occurs where PMS does not define doins *)
+Fixpoint opt_all {A} (l : list (option A)) : option (list A) :=
+  match l with
+  | [] => Some []
+  | Some x :: r => match opt_all r with Some xs => Some (x :: xs) | None => None end
+  | None :: _ => None
+  end.
+Definition tree_file (symlinks_ok : bool) (dd : list str) (mode : N) (nf : str * fkind) : option (list str * pnode) :=
+  if negb (good_name (fst nf)) then None
+  else if negb symlinks_ok && match snd nf with FLink _ _ => true | _ => false end then None
+  else match file_node mode (snd nf) symlinks_ok with
+       | Some n => Some (dd ++ [fst nf], n)
+       | None => None
+       end.
+Definition tree_dlink (symlinks_ok : bool) (dd : list str) (nt : str * str) : option (list str * pnode) :=
+  if good_name (fst nt) && symlinks_ok then Some (dd ++ [fst nt], PLink (snd nt)) else None.
+Definition tree_one (symlinks_ok : bool) (dest : list str) (dmode : option N) (mode : N) (base : str) (w : wentry)
+  : option (list (list str * pnode)) :=
+  if negb (forallb good_name (w_rel w)) then None else
+  let dd := dest ++ base :: w_rel w in
+  match opt_all (map (tree_dlink symlinks_ok dd) (w_dlinks w)), opt_all (map (tree_file symlinks_ok dd mode) (w_files w)) with
+  | Some ls, Some fs => Some ((dd, PDir dmode) :: ls ++ fs)
+  | _, _ => None
+  end.
+Fixpoint tree_walk (symlinks_ok : bool) (dest : list str) (dmode : option N) (mode : N) (base : str) (walk : list wentry)
+  : option (list (list str * pnode)) :=
+  match walk with
+  | [] => Some []
+  | w :: r => match tree_one symlinks_ok dest dmode mode base w, tree_walk symlinks_ok dest dmode mode base r with
+              | Some a, Some b => Some (a ++ b)
+              | _, _ => None
+              end
+  end.
 Definition tree_entries (symlinks_ok : bool) (dest : list str) (dmode : option N) (mode : N) (d : str) (walk : list wentry)
   : option (list (list str * pnode)) :=
   let base := basename (rstrip_sl d) in
-  if negb (good_name base) then None else
-  let one (w : wentry) : option (list (list str * pnode)) :=
-    let dd := dest ++ [base] ++ w_rel w in
-    if negb symlinks_ok && (negb (is_nil (w_dlinks w))
-                            || existsb (fun nf => match snd nf with FLink _ _ => true | _ => false end) (w_files w))
-    then None
-    else
-      let fs := map (fun nf => match file_node mode (snd nf) symlinks_ok with
-                               | Some n => Some (dd ++ [fst nf], n) | None => None end) (w_files w) in
-      if existsb (fun x => match x with None => true | _ => false end) fs then None
-      else Some ((dd, PDir dmode)
-                 :: map (fun nt => (dd ++ [fst nt], PLink (snd nt))) (w_dlinks w)
-                 ++ concat (map (fun x => match x with Some y => [y] | None => [] end) fs)) in
-  let rs := map one walk in
-  if existsb (fun x => match x with None => true | _ => false end) rs then None
-  else Some (concat (map (fun x => match x with Some y => y | None => [] end) rs)).
+  if good_name base then tree_walk symlinks_ok dest dmode mode base walk else None.
 
 Definition flat_one (dest : list str) (mode : N) (a : str * skind) : option (list str * pnode) :=
   match snd a with
@@ -146,6 +165,25 @@ Fixpoint flat_files (dest : list str) (mode : N) (l : list (str * skind)) : opti
               | Some x, Some xs => Some (x :: xs)
               | _, _ => None
               end
+  end.
+
+(* doins -r / dodoc -r: the trees of the directory arguments, then the file arguments *)
+Fixpoint dirs_entries (symlinks_ok : bool) (dest : list str) (dmode : option N) (mode : N) (l : list (str * skind))
+  : option (list (list str * pnode)) :=
+  match l with
+  | [] => Some []
+  | a :: r =>
+      match (match snd a with SDir _ w => tree_entries symlinks_ok dest dmode mode (fst a) w | _ => Some [] end),
+            dirs_entries symlinks_ok dest dmode mode r with
+      | Some x, Some y => Some (x ++ y)
+      | _, _ => None
+      end
+  end.
+Definition recursive_entries (symlinks_ok : bool) (dest : list str) (dmode : option N) (mode : N) (l : list (str * skind))
+  : option (list (list str * pnode)) :=
+  match dirs_entries symlinks_ok dest dmode mode (dirs_of l), flat_files dest mode (files_of l) with
+  | Some ds, Some fl => Some (ds ++ fl)
+  | _, _ => None
   end.
 
 Definition any_missing (l : list (str * skind)) : bool :=
@@ -190,14 +228,7 @@ Definition pms_expect (i : inv) : verdict :=
         else if any_missing rest then PReject
         else if negb (any_dir rest) then opt_verdict (flat_files (comps dest) m rest)
         else if r && r_allowed then
-          let ds := map (fun a => match snd a with
-                                  | SDir _ w => tree_entries (pms_doins_symlinks e) (comps dest) dmode m (fst a) w
-                                  | _ => Some [] end) (dirs_of rest) in
-          if existsb (fun x => match x with None => true | _ => false end) ds then PUndef
-          else match flat_files (comps dest) m (files_of rest) with
-               | Some fl => PExpect (concat (map (fun x => match x with Some y => y | None => [] end) ds) ++ fl)
-               | None => PUndef
-               end
+          opt_verdict (recursive_entries (pms_doins_symlinks e) (comps dest) dmode m rest)
         else if dirs_need_r_else_reject then PReject else PUndef
     end in
   if str_eqb h (lit "doins") then
